@@ -224,7 +224,7 @@ def _callee_hint(txt):
     m = re.search(r'\.(unwrap|expect)\(', txt)
     if m:
         return m.group(1)
-    if 'panic!' in txt:
+    if 'panic!' in txt or 'unreachable!' in txt or 'unimplemented!' in txt or 'todo!' in txt:
         return 'panic'
     if 'assert_eq!' in txt or 'assert!' in txt:
         return 'assert'
